@@ -51,7 +51,7 @@ A = {
  "C17-w9B": ("btree Put pre-sizes the first root leaf with capacity order: orders near MaxInt panic in make", {S: "extreme-configurations probe of the hostile world: B-trees of order 2^62, MaxInt-1 and MaxInt through a short life"}),
  "C18-w9A": ("redblacktree Left() answers from a cached left-most node that Remove clears and the next Left() refills (a write in a read-only call after removing the minimum)", {}),
  "C18-w9B": ("redblacktree lookup refreshes the stored key with the one asked for (Get with another spelling of a key under a coarsened comparator writes)", {}),
- "C18-w9C": ("treeset Each iterates a cached snapshot while holding a mutex that Values() also takes: a callback that reads the set blocks for ever", {}),
+ "C18-w9C": ("treeset Each iterates a cached snapshot while holding a mutex that Values() also takes: a callback that reads the set blocks for ever", {S: "stall detector: an operation that waits for ever under library code (here a mutex the library holds while it calls the caller's callback) ends the worker like a Go fatal error; the driver regenerates the plan and confirms it in a fresh process (before, the watchdog killed the worker: exit 2, no verdict)"}),
 }
 
 missing = []
